@@ -174,7 +174,8 @@ def case_line(case, compat: bool = False) -> str:
     """driver request; compat = the XPath 1.0 reading (XPath1Parser: compatibility_mode is True)"""
     op, args = case['op'], case['args']
     if op == 'conv':
-        head = 'conv|' + numarg_line(case['num'])
+        # XPath1Parser callers convert through compat_string_value (driver op conv1), the others through string_value
+        head = ('conv1|' if compat else 'conv|') + numarg_line(case['num'])
         if case['inner'] is None:
             return head
         return head + '|' + case_line({'op': case['inner'], 'args': args}, compat)
@@ -828,7 +829,7 @@ CORPUS = [
     {'op': 'ctoken', 'args': [S('a'), []]},
     {'op': 'hctoken', 'args': [S('RED'), [S('red green blue')]]},
     {'op': 'hctoken', 'args': [S('SS'), [S('ß')]]},
-    # non-string arguments (XPath 1.0 string() conversion; F09g: INF / exponent forms / -0 with the 1.0 parser)
+    # non-string arguments (XPath 1.0 string() conversion; repaired F09g: INF / exponent forms / -0 with the 1.0 parser)
     {'op': 'conv', 'num': ('I', '12345'), 'inner': 'substring2', 'args': ['@', fnum(2.0)]},
     {'op': 'conv', 'num': ('B', 1), 'inner': 'concat', 'args': [[S('1'), '@', []]]},
     {'op': 'conv', 'num': ('F', (12.5).hex()), 'inner': 'before', 'args': ['@', S('.')]},
@@ -962,7 +963,7 @@ def compare(run: Run, cases: list) -> None:
             pname = E['parsers'][pidx].__name__
             model0, spec0 = ans[line1 if pidx == 0 else line].split('|')[:2]
             for e, var, form, root, *key in variants(case, pidx):
-                model, spec, tags = model0, spec0, (['F09g'] if (trig and pidx == 0) else [])
+                model, spec, tags = model0, spec0, []
                 if op == 'cp2sx':
                     tags = ['F09k'] if trig else []
                 if key:
@@ -1454,7 +1455,7 @@ def context_item_pass(run: Run, cases: list, groups: int) -> None:
                 na = gen_numarg(rng)
                 v = numarg_value(na)
                 if na[0] == 'F':
-                    items.append(('double', v, None))
+                    items.append(('double', v, ('num', na)))     # XPath 1.0 only: 2.0 canonical doubles are C10's
                 else:
                     items.append(({'I': 'integer', 'D': 'decimal', 'B': 'boolean'}[na[0]], v, ('num', na)))
             elif r < 0.6:
@@ -1538,7 +1539,7 @@ def context_item_pass(run: Run, cases: list, groups: int) -> None:
                         if got != one:
                             report(kind, fun, how, expr, pidx, got, one, 'zero-arg-vs-one-arg', detail)
                         want = expected(key, fun)
-                        if want is not None and not (kind == 'double') and got != want:
+                        if want is not None and not (kind == 'double' and pidx != 0) and got != want:
                             report(kind, fun, how, expr, pidx, got, want, 'zero-arg-vs-F&O', detail)
                     # a bare token evaluated with an XPathContext whose item is the value
                     try:
